@@ -31,6 +31,11 @@ FORBIDDEN = re.compile(
 os.environ.setdefault("PYPA_PACKAGING_VERIF", "1")
 
 
+# an implementation answer that depends on the machine's resources (MemoryError, recursion budget): the case is
+# counted but not compared
+RESOURCE_LIMIT = "resource-limit"
+
+
 def use_repo():
     """Make ``import packaging`` resolve to $VERIF_REPO/src (current working tree)."""
     src = str(REPO / "src")
